@@ -58,6 +58,14 @@ func runC10(c *Ctx) {
 				case "strings.ReplaceAll":
 					repls = append(repls, x)
 					walk(x.Call.Args[0])
+				case "strings.Replace":
+					// strings.Replace(s, old, new, -1) is how ReplaceAll is defined
+					if n, isK := constInt(x.Call.Args[3]); isK && n < 0 {
+						repls = append(repls, x)
+						walk(x.Call.Args[0])
+					} else {
+						okShape, why = false, "URL text derives from a bounded strings.Replace"
+					}
 				default:
 					okShape, why = false, "URL text derives from "+calleeName(&x.Call)
 				}
@@ -80,6 +88,9 @@ func runC10(c *Ctx) {
 					if uncond {
 						okShape, why = false, "a slash is appended unconditionally"
 					}
+				} else if x.Op == token.ADD && suffixIsSlashOrNothing(x.Y) {
+					// urlPath += suffix with suffix "/" or "": the conditional slash, decided when the suffix was chosen
+					walk(x.X)
 				} else {
 					okShape, why = false, "URL text is built by concatenation: "+describe(x)
 				}
@@ -187,6 +198,9 @@ func runC10(c *Ctx) {
 					switch calleeName(&x.Call) {
 					case "strings.ReplaceAll":
 						okUse = x.Call.Args[0] == v
+					case "strings.Replace":
+						n, isK := constInt(x.Call.Args[3])
+						okUse = x.Call.Args[0] == v && isK && n < 0
 					case "net/http.NewRequestWithContext":
 						okUse = x.Call.Args[2] == v
 					default:
@@ -332,7 +346,7 @@ func runC10(c *Ctx) {
 		if sameOrigins(recvD, recvA) && aD[0] != aA[0] {
 			// two passes over the pattern's query: first every colliding name is deleted, then all values are added
 			var lD, lA *mapLoop
-			ls := mapLoops(f, vOrigins(oCall(-1, "(*net/url.URL).Query")))
+			ls := mapLoops(f, vOrigins(oURLQuery(nil)))
 			for i := range ls {
 				if k := extractOf(ls[i].Next, 1); k != nil {
 					if k == aD[0] {
@@ -359,13 +373,13 @@ func runC10(c *Ctx) {
 				}
 			}
 		}
-		okB, _ := allOrigins(recvD, oCallWhere(-1, "(*net/url.URL).Query", func(q *ssa.Call) bool {
-			okk, _ := allOrigins(q.Call.Args[0], oCallWhere(0, "net/url.Parse", func(pp *ssa.Call) bool { return pp.Call.Args[0] == ssa.Value(paramOf(f, 1)) }))
+		okB, _ := allOrigins(recvD, oURLQuery(func(u ssa.Value) bool {
+			okk, _ := allOrigins(u, oCallWhere(0, "net/url.Parse", func(pp *ssa.Call) bool { return pp.Call.Args[0] == ssa.Value(paramOf(f, 1)) }))
 			return okk
 		}))
 		okPrec = okPrec && okB
 		// present -> Del before Add
-		for _, l := range mapLoops(f, vOrigins(oCall(-1, "(*net/url.URL).Query"))) {
+		for _, l := range mapLoops(f, vOrigins(oURLQuery(nil))) {
 			if twoPass || !l.Header.Dominates(addsq[0].In.Block()) {
 				continue
 			}
@@ -414,9 +428,28 @@ func runC10(c *Ctx) {
 	ps := p.Fn("(*rt/client.Runtime).pickScheme")
 	sels := callsIn(ps, "(*rt/client.Runtime).selectScheme")
 	okPS := len(sels) == 2
+	// (the candidate list: the argument, or the receiver when the helper became a method of a list type)
+	listOperand := func(ci ssa.CallInstruction) []ssa.Value {
+		recv, a := callArgs(ci.Common())
+		if len(a) == 0 && recv != nil {
+			a = []ssa.Value{recv}
+		}
+		if len(a) == 0 {
+			a = ci.Common().Args
+		}
+		for i := range a {
+			if ct, isCT := a[i].(*ssa.ChangeType); isCT {
+				a[i] = ct.X
+			}
+		}
+		return a
+	}
+	if okPS && (len(listOperand(sels[0])) == 0 || len(listOperand(sels[1])) == 0) {
+		okPS = false
+	}
 	if okPS {
-		_, a0 := callArgs(sels[0].Common())
-		_, a1 := callArgs(sels[1].Common())
+		a0 := listOperand(sels[0])
+		a1 := listOperand(sels[1])
 		first, second := sels[0], sels[1]
 		if !dominates(first, second) {
 			first, second = second, first
@@ -427,7 +460,10 @@ func runC10(c *Ctx) {
 	recognised := len(sels) == 2
 	if len(sels) == 1 {
 		// one call in a loop over an ordered table of candidate lists: the order is the order of the table's elements
-		_, a := callArgs(sels[0].Common())
+		a := listOperand(sels[0])
+		if len(a) == 0 {
+			a = []ssa.Value{nil}
+		}
 		if ad, isLd := derefLoad(a[0]); isLd {
 			if ia, isIA := ad.(*ssa.IndexAddr); isIA {
 				if elems, isLit := sliceLitElems(ia.X); isLit && len(elems) == 2 {
@@ -556,8 +592,8 @@ func runC10(c *Ctx) {
 
 	// R10.4
 	checkErrorsReturned(c, "R10.4", f, 1, func(call *ssa.Call) bool {
-		n := calleeName(&call.Call)
-		return n == "(rt.ClientAuthInfoWriter).AuthenticateRequest" && false
+		// url.ParseQuery(u.RawQuery) with the error discarded is the definition of u.Query()
+		return oURLQuery(nil)(Origin{V: call, Index: 0}) && errValueUnused(call)
 	})
 	checkErrorsReturned(c, "R10.4", ch, 2, nil)
 	c.min("R10.4", 6)
@@ -631,4 +667,66 @@ func runC10(c *Ctx) {
 func refValue(in ssa.Instruction) ssa.Value {
 	v, _ := in.(ssa.Value)
 	return v
+}
+
+// suffixIsSlashOrNothing: v is a merge of the constants "/" and "" (both occur).
+func suffixIsSlashOrNothing(v ssa.Value) bool {
+	slash, empty := false, false
+	for _, o := range originsOf(v) {
+		k, ok := constString(o.V)
+		switch {
+		case ok && k == "/":
+			slash = true
+		case ok && k == "":
+			empty = true
+		default:
+			return false
+		}
+	}
+	return slash && empty
+}
+
+// oURLQuery: the origin is the query of a URL value — u.Query(), or url.ParseQuery(u.RawQuery) (what Query is defined
+// as, with the parse error dropped). where, when given, judges the URL value u.
+func oURLQuery(where func(u ssa.Value) bool) OPred {
+	return func(o Origin) bool {
+		call := asCall(o.V)
+		if call == nil {
+			return false
+		}
+		switch calleeName(&call.Call) {
+		case "(*net/url.URL).Query":
+			return where == nil || where(call.Call.Args[0])
+		case "net/url.ParseQuery":
+			if o.Index > 0 {
+				return false
+			}
+			for _, og := range originsOf(call.Call.Args[0]) {
+				u, ok := fieldLoad(og.V, "net/url.URL", "RawQuery")
+				if !ok || (where != nil && !where(u)) {
+					return false
+				}
+			}
+			return true
+		}
+		return false
+	}
+}
+
+// errValueUnused: the error result of the call is never read.
+func errValueUnused(call *ssa.Call) bool {
+	ev := errValueOf(call)
+	if ev == nil {
+		return true
+	}
+	refs := ev.Referrers()
+	if refs == nil {
+		return true
+	}
+	for _, r := range *refs {
+		if _, isDbg := r.(*ssa.DebugRef); !isDbg {
+			return false
+		}
+	}
+	return true
 }
